@@ -22,7 +22,7 @@ def _name(fam, pre, n, suf):
 
 def x_obligations(tier):
     o = []
-    T = 170 if tier == "quick" else 1500
+    T = 170 if tier == "quick" else 600
     sk = SK_QUICK if tier == "quick" else SK_THOROUGH
     for pre, n, suf in sk:
         env = {"VF_PRE": pre, "VF_N": str(n), "VF_SUF": suf}
